@@ -115,6 +115,17 @@ func genC14(r *h.Rng, tier string, idx int) *h.Plan {
 	p.Cfg["timeout_ns"] = int64(T)
 	on := mode == "control" || mode == "default" || mode == "control-nodefault" || mode == "control-zerodefault"
 	p.Cfg["shared_ctx"] = r.Bool()
+	if r.P(1, 6) {
+		// the same script text with and without the library that defines what it
+		// calls, in either order: one finishes with a value, the other throws
+		with := h.Op{K: "js", S: r.Pick([]string{"run", "action"}), J: map[string]interface{}{"family": "value", "code": "greet()", "want": "hello", "libs": []interface{}{"helpers"}}}
+		without := h.Op{K: "js", S: r.Pick([]string{"run", "action"}), J: map[string]interface{}{"family": "throw", "code": "greet()"}}
+		if r.Bool() {
+			p.Ops = append(p.Ops, with, without)
+		} else {
+			p.Ops = append(p.Ops, without, with)
+		}
+	}
 	n := r.Range(2, 6)
 	for i := 0; i < n; i++ {
 		s := genC14Script(r, T, on)
@@ -170,6 +181,7 @@ func execC14(t *testing.T, plan *h.Plan, trace bool) *h.Result {
 			ps.DefaultJavascriptTimeout = -1
 			on = false
 		}
+		ctl.Libraries = map[string]string{"helpers": "function greet() { return 'hello'; }"}
 		back := h.NewBackend("mem")
 		eng := h.NewCoreEngine(state, back, ctl)
 		loc := eng.Loc("L")
@@ -197,6 +209,14 @@ func execC14(t *testing.T, plan *h.Plan, trace bool) *h.Result {
 				stepNs = int64(f)
 			}
 			vname, _ := sj["var"].(string)
+			var libs []string
+			if xs, ok := sj["libs"].([]interface{}); ok {
+				for _, x := range xs {
+					if l, ok := x.(string); ok {
+						libs = append(libs, l)
+					}
+				}
+			}
 			ctx := h.NewCtx(h.Prot{})
 			if sharedCtx != nil {
 				// one caller context for the whole history: what an earlier
@@ -214,7 +234,7 @@ func execC14(t *testing.T, plan *h.Plan, trace bool) *h.Result {
 				if vname != "" {
 					bs[vname] = sj["varval"]
 				}
-				val, err = loc.RunJavascript(ctx, code, nil, &bs, nil)
+				val, err = loc.RunJavascript(ctx, code, libs, &bs, nil)
 			case "cond":
 				// the script as a `code` condition term; a kept binding = non-null/true value
 				q := map[string]interface{}{"code": code}
@@ -236,6 +256,13 @@ func execC14(t *testing.T, plan *h.Plan, trace bool) *h.Result {
 				rule := map[string]interface{}{
 					"when":   map[string]interface{}{"pattern": map[string]interface{}{"fire": "?x"}},
 					"action": map[string]interface{}{"code": code},
+				}
+				if len(libs) > 0 {
+					ls := make([]interface{}, len(libs))
+					for i, l := range libs {
+						ls[i] = l
+					}
+					rule["action"] = map[string]interface{}{"code": code, "opts": map[string]interface{}{"libraries": ls}}
 				}
 				if _, aerr := loc.AddRule(ctx, "jsrule", core.Map(rule)); aerr != nil {
 					// a script that does not compile is refused when the rule is added: an error, as required
